@@ -153,7 +153,7 @@ fn chk_startpos_rel(mode: &str, ops: &str) -> Result<(), String> {
     }
     Ok(())
 }
-fn chk_startpos_with(mode: &str, p: u64, pre: &[u8], build: &dyn Fn() -> Result<St, String>) -> Result<(), String> {
+fn chk_startpos_with(_mode: &str, p: u64, pre: &[u8], build: &dyn Fn() -> Result<St, String>) -> Result<(), String> {
     let reference = {
         let (r, core) = write_to(build()?, Core::new(Vec::new(), 0));
         res(r, "to_writer")?;
